@@ -321,6 +321,10 @@ Definition check_constr (c : constr_case) : bool :=
   | _, _ => false
   end.
 
-Inductive case := CRemoval (c : removal_case) | CConstr (c : constr_case).
-Definition check_case (c : case) : bool :=
+(* a case = everything observed on one generated state (its removal queries and the
+   constraints of the repair DCOP built from it) *)
+Inductive atom := CRemoval (c : removal_case) | CConstr (c : constr_case).
+Definition check_atom (c : atom) : bool :=
   match c with CRemoval r => check_removal r | CConstr r => check_constr r end.
+Definition case := list atom.
+Definition check_case (c : case) : bool := forallb check_atom c.
